@@ -52,7 +52,11 @@ def main():
     finally:
         subprocess.call(["git", "-C", "/repo", "worktree", "remove", "--force", wt], stdout=subprocess.DEVNULL, stderr=subprocess.DEVNULL)
         shutil.rmtree(wt, ignore_errors=True)
-    res["confirmed"] = bool(res.get("applies") and res.get("builds") and res.get("ctest_ok") and res.get("demonstrated"))
+    benign = os.path.basename(d).split("-")[-1].startswith("b")       # behaviour-preserving rewrites (<ID>-b<n>): nothing to demonstrate
+    if benign:
+        res["benign"] = True
+        res["demonstrated"] = None
+    res["confirmed"] = bool(res.get("applies") and res.get("builds") and res.get("ctest_ok") and (benign or res.get("demonstrated")))
     json.dump(res, open(os.path.join(d, "confirm.json"), "w"), indent=1)
     print(os.path.basename(d), "CONFIRMED" if res["confirmed"] else "NOT-CONFIRMED", {k: v for k, v in res.items() if k in ("applies", "builds", "ctest_ok", "demonstrated")})
 
